@@ -623,7 +623,7 @@ class Interp:
                     return -v if isinstance(e.op, ast.USub) else +v if isinstance(e.op, ast.UAdd) else ~v
                 except TypeError:
                     raise Raised('TypeError')
-            return Sym('(-%s)' % show(v))
+            return Sym('(-%s)' % show(v), struct=('binop', '-', 0, v)) if isinstance(e.op, ast.USub) else Sym('(+%s)' % show(v))
         if isinstance(e, ast.BinOp):
             return self.binop(e.op, self.ev(e.left, env), self.ev(e.right, env), e)
         if isinstance(e, ast.Compare):
@@ -1090,3 +1090,39 @@ def method_call(v, name):
         if isinstance(f, Sym) and f.struct and f.struct[0] == 'attr' and f.struct[2] == name:
             return f.struct[1]
     return None
+
+
+def to_rat(v, leaf):
+    """the exact rational function a structured value denotes: + - * / and integer powers are interpreted, everything else is
+    handed to leaf(value) -> Rat (an atom, typically) or None (then AlgebraError is raised)"""
+    from .algebra import Rat, AlgebraError
+    from fractions import Fraction
+    if isinstance(v, bool):
+        raise AlgebraError('boolean')
+    if isinstance(v, int):
+        return Rat.const(v)
+    if isinstance(v, float):
+        return Rat.const(Fraction(v).limit_denominator(10 ** 12) if v == v and abs(v) != float('inf') else 0) if v == v and abs(v) != float('inf') else leaf_fail(v)
+    if isinstance(v, Sym) and v.struct and v.struct[0] == 'binop' and v.struct[1] in ('+', '-', '*', '/', '**'):
+        op, l, r = v.struct[1], v.struct[2], v.struct[3]
+        if op == '**':
+            if isinstance(r, int) and not isinstance(r, bool) and abs(r) <= 12:
+                base = to_rat(l, leaf)
+                out = Rat.const(1)
+                for _ in range(abs(r)):
+                    out = out * base
+                return out if r >= 0 else Rat.const(1) / out
+        else:
+            a, b = to_rat(l, leaf), to_rat(r, leaf)
+            return a + b if op == '+' else a - b if op == '-' else a * b if op == '*' else a / b
+    if isinstance(v, Sym) and v.text.startswith('(-') and v.struct is None:
+        pass
+    r = leaf(v)
+    if r is None:
+        raise AlgebraError('value %s has no algebraic meaning here' % show(v)[:60])
+    return r
+
+
+def leaf_fail(v):
+    from .algebra import AlgebraError
+    raise AlgebraError('non-finite constant %r' % (v,))
